@@ -539,6 +539,11 @@ def e2e_case(ctx, G, P, rng, idx, forced=None):
                 smp[type(ex).__name__] = {'form': form, 'e': e, 'error': str(ex)[:200]}
             return
         if not same_value(expected, ref):
+            if any(isinstance(x, (ast.Lambda, ast.GeneratorExp)) for x in ast.walk(tree)):
+                # a nested function inside eval(e, G, L) sees only G (Python's rule), so the flat effective scope
+                # is not a reference for this expression; skipped
+                ctx.count('e2e.outcome.skipped_nested_scope_in_explicit_dicts')
+                return
             # the generated scope does not give e the intended value: harness problem, never pony's fault
             ctx.count('e2e.outcome.harness_scope_mismatch')
             ctx.inconclusive.append('C04 harness: in-place value %r != effective-scope value %r for %s' % (expected, ref, e))
